@@ -305,8 +305,22 @@ func FieldAddr(v ssa.Value) (base ssa.Value, field string, ok bool) {
 	if st == nil {
 		return nil, "", false
 	}
+	// a struct kept by value in one field of another (`p.params.Spec`) may stand for fields of the outer
+	// struct (`p.spec`): the canonical naming layer says which
+	if outer, isFA := fa.X.(*ssa.FieldAddr); isFA && FlattenHook != nil {
+		if ost := derefStruct(outer.X.Type()); ost != nil {
+			if roles := FlattenHook(ost.Field(outer.Field)); roles != nil {
+				if role, ok := roles[st.Field(fa.Field).Name()]; ok {
+					return outer.X, role, true
+				}
+			}
+		}
+	}
 	return fa.X, FieldNameHook(st.Field(fa.Field)), true
 }
+
+// FlattenHook, when set, maps a struct-typed field to the roles its own fields play in the enclosing struct.
+var FlattenHook func(v *types.Var) map[string]string
 
 // FieldLoad decomposes v = base.Field read either as *(&base.Field) or as a
 // Field instruction on a struct value.
